@@ -496,17 +496,34 @@ impl<I: Ip> PeerMap<I> {
                     Self::Large(peer_map) => peer_map.insert(peer_map_key, peer),
                 }
 
-                if config.statistics.peer_clients && opt_removed_peer.is_none() {
-                    statistics_sender
-                        .try_send(StatisticsMessage::PeerAdded(request.peer_id))
-                        .expect("statistics channel should be unbounded");
+                if config.statistics.peer_clients {
+                    // Peer ID of stored peer might differ from the one in
+                    // the request, e.g., when a client was restarted
+                    match opt_removed_peer {
+                        Some(removed_peer) if removed_peer.peer_id == request.peer_id => {}
+                        Some(removed_peer) => {
+                            statistics_sender
+                                .try_send(StatisticsMessage::PeerRemoved(removed_peer.peer_id))
+                                .expect("statistics channel should be unbounded");
+                            statistics_sender
+                                .try_send(StatisticsMessage::PeerAdded(request.peer_id))
+                                .expect("statistics channel should be unbounded");
+                        }
+                        None => {
+                            statistics_sender
+                                .try_send(StatisticsMessage::PeerAdded(request.peer_id))
+                                .expect("statistics channel should be unbounded");
+                        }
+                    }
                 }
             }
             PeerStatus::Stopped => {
-                if config.statistics.peer_clients && opt_removed_peer.is_some() {
-                    statistics_sender
-                        .try_send(StatisticsMessage::PeerRemoved(request.peer_id))
-                        .expect("statistics channel should be unbounded");
+                if config.statistics.peer_clients {
+                    if let Some(removed_peer) = opt_removed_peer {
+                        statistics_sender
+                            .try_send(StatisticsMessage::PeerRemoved(removed_peer.peer_id))
+                            .expect("statistics channel should be unbounded");
+                    }
                 }
             }
         };
